@@ -437,3 +437,220 @@ Proof.
   split; [eexists; split; [vm_compute; reflexivity|]; vm_compute; reflexivity|].
   split; vm_compute; reflexivity.
 Qed.
+
+(* ---- the SET layer on the C text: rset_find and rset_make of rset.c (translated: GenCFuncs.F_rset_find, F_rset_make; whitelist
+   tools/c2clite.d/96a_rsetfind.list) are RsetDefs.rset_find_d / rset_make, coq/TrRsetFind.v, TrRsetFindRx.v, TrRsetMake.v ---------------
+   C10_rset_index_partial / C10_rset_index_all / C10_rset_index_semantic_all above speak about the hand-written rset_find_d and the tables
+   of rset_make; the theorems below tie them to the C TEXT.
+   Memory layout (c2clite: one value per cell): struct rset = block of 5 cells (regex_t regex = one pointer cell, n, grp, setgrpcnt, grpcnt);
+   grp[] and setgrpcnt[] int arrays in blocks of their own; regmatch_t = 2 cells, subs = malloc(grpcnt * sizeof(subs[0])) a fresh block of
+   2 * grpcnt cells (index length m); the caller's grps[] a block of at least 2 * n cells.
+
+   C10_tr_rset_find -- "the reported index is that of the alternative that matched", RELATIVE to regexec: for EVERY struct rset in memory
+   (tables inside subs[]: rset_tabs_ok), every line pointer, n, flag word, and EVERY answer of the one call
+   regexec(&rs->regex, s, rs->grpcnt, subs, REG_NEWLINE | (RE_NOTBOL -> REG_NOTBOL) | (RE_NOTEOL -> REG_NOTEOL)) on the memory with the
+   fresh subs block (regexec_ans: r == 0 and subs[] = grpcnt pairs of ints, or r != 0; older blocks unchanged): the translated rset_find
+   returns the index the model picks from that answer (rset_answer = the body of rset_find_d behind its call of regexec_d:
+   C10_rset_find_d_answer) -- the LAST i < n with grp[i] >= 0 and subs[grp[i]].rm_so >= 0 --, grps[] holds the groups of that alternative
+   renumbered from 0 (-1 beyond setgrpcnt[set] + 1), subs is freed (its block is empty afterwards: a later access is EOob), every other block
+   is as regexec left it; every load and store is inside its block, no int operation overflows. *)
+From NV Require CLiteExt TrRsetFind TrRsetFindRx TrRsetMake.
+From Coq Require Import Lia.
+Theorem C10_rset_find_d_answer : forall d (rs : rset) line n flg,
+  rset_find_d d rs line n flg =
+  if Nat.leb (rs_grpcnt rs) 2 then (Ok ((-1)%Z, []), 0%N)
+  else match regexec_d d (rs_prog rs) (rs_cflg rs) line (rs_grpcnt rs) (TrRsetFind.eflg_of flg) with
+       | (Ok osubs, c) => (Ok (TrRsetFind.rset_answer (rs_n rs) (rs_grp rs) (rs_setgrpcnt rs) osubs n), c)
+       | (OOB w, c) => (OOB w, c)
+       | (NoFuel, c) => (NoFuel, c)
+       end.
+Proof. exact TrRsetFind.rset_find_d_answer. Qed.
+Print Assumptions C10_rset_find_d_answer.
+
+Theorem C10_tr_rset_find : forall (m : CLite.mem) rb bre bg bsg gb n_rs grpcnt grp sgc restg rests bl o n flg (gold : CLite.block) D fuel r osubs m2,
+  nth_error m rb = Some [CLite.VPtr bre 0; CLite.VInt n_rs; CLite.VPtr bg 0; CLite.VPtr bsg 0; CLite.VInt grpcnt] ->
+  nth_error m bg = Some (map CLite.VInt grp ++ restg) -> nth_error m bsg = Some (map CLite.VInt (map Z.of_nat sgc) ++ rests) ->
+  nth_error m gb = Some gold -> gb <> rb -> gb <> bg -> gb <> bsg ->
+  TrRsetFind.rset_tabs_ok n_rs grpcnt grp sgc -> (2 < grpcnt <= 2147483647)%Z ->
+  (n * 2 <= 2147483647)%Z -> (grpcnt + n <= 2147483647)%Z -> 2 * Z.to_nat n <= length gold ->
+  Z.to_nat n_rs < fuel -> Z.to_nat n < fuel ->
+  let sb := length m in
+  CLite.callf GenCFuncs.cprog fuel D GenCFuncs.F_regexec
+    [CLite.VPtr rb 0; CLite.VPtr bl o; CLite.VInt grpcnt; CLite.VPtr sb 0; CLite.VInt (TrRsetFind.eflg_of flg)]
+    (m ++ [repeat CLite.VUndef (Z.to_nat (2 * grpcnt))]) = CLite.Ok (CLite.VInt r, m2) ->
+  TrRsetFind.regexec_ans m m2 sb grpcnt r osubs ->
+  let R := TrRsetFind.rset_answer (Z.to_nat n_rs) grp sgc osubs (Z.to_nat n) in
+  CLite.callf GenCFuncs.cprog fuel (S D) GenCFuncs.F_rset_find [CLite.VPtr rb 0; CLite.VPtr bl o; CLite.VInt n; CLite.VPtr gb 0; CLite.VInt flg] m
+  = CLite.Ok (CLite.VInt (fst R),
+              CLiteProps.upd (if (fst R <? 0)%Z then m2 else CLiteProps.upd m2 gb (CLiteTac.tab_block (snd R) ++ skipn (2 * Z.to_nat n) gold)) sb []).
+Proof. exact TrRsetFind.tr_rset_find_rel. Qed.
+Print Assumptions C10_tr_rset_find.
+
+(* the empty set (rs->grpcnt <= 2): -1, nothing allocated, regexec not called *)
+Theorem C10_tr_rset_find_empty : forall (m : CLite.mem) rb (blk : CLite.block) grpcnt sv nv gpv flg d fuel,
+  nth_error m rb = Some blk -> nth_error blk 4 = Some (CLite.VInt grpcnt) -> (-2147483648 <= grpcnt <= 2)%Z ->
+  CLite.callf GenCFuncs.cprog fuel (S d) GenCFuncs.F_rset_find [CLite.VPtr rb 0; sv; nv; gpv; CLite.VInt flg] m = CLite.Ok (CLite.VInt (-1), m).
+Proof. exact TrRsetFind.tr_rset_find_empty. Qed.
+Print Assumptions C10_tr_rset_find_empty.
+
+(* composed with C10_tr_regexec_model (the translated regexec = regexec_d 256): UNCONDITIONALLY in the answer of regexec.  For a set of the
+   model in memory (TrRsetFindRx.rset_at: the struct, grp[] = rs_grp, setgrpcnt[] = rs_setgrpcnt, the regex_t pointing to the compiled program
+   laid out as TrRegexRec.prog_at says), its tables inside subs[] (C10_rset_make_tabs_ok: true for every set rset_make accepts), a program with
+   the static shape regcomp guarantees (prog_wf), the line a C string at the start of its block: whenever the model answers (Ok (idx, g)),
+   the translated rset_find returns idx, grps[] holds g (the first 2 * n cells; the block is untouched when idx < 0), the block of subs[] is
+   freed, every other block that existed at the call is unchanged (regexec's local state and saved states stay behind as garbage blocks). *)
+Theorem C10_tr_rset_find_model : forall (m : CLite.mem) fuel rb bre bp bg bsg gb bl (rs : rset) rests (line : bytes) n flg (gold : CLite.block) e idx g c,
+  TrRsetFindRx.rset_at m fuel rb bre bp bg bsg rs rests ->
+  TrRsetFind.rset_tabs_ok (Z.of_nat (rs_n rs)) (Z.of_nat (rs_grpcnt rs)) (rs_grp rs) (rs_setgrpcnt rs) ->
+  CLiteProps.str_at m bl line -> CLiteTac.globals_at m -> nth_error m gb = Some gold -> gb <> rb -> gb <> bg -> gb <> bsg ->
+  CLiteProps.bytes_lt256 line -> (-2147483648 <= rs_cflg rs <= 2147483647)%Z ->
+  (-2147483648 <= Z.lor (rs_cflg rs) (TrRsetFind.eflg_of flg) <= 2147483647)%Z ->
+  (Z.of_nat (rs_grpcnt rs) <= 1073741823)%Z -> (n * 2 <= 2147483647)%Z -> (Z.of_nat (rs_grpcnt rs) + n <= 2147483647)%Z ->
+  2 * Z.to_nat n <= length gold ->
+  length line + 2 <= fuel -> TrRegexBrk.cls_fuel <= fuel -> (Z.of_nat (length line) < 2147483647)%Z ->
+  (Z.of_nat (length (code (rs_prog rs))) < 2147483647)%Z -> prog_wf (code (rs_prog rs)) -> length (code (rs_prog rs)) < fuel ->
+  128 < fuel -> rs_grpcnt rs < fuel -> rs_n rs < fuel -> Z.to_nat n < fuel ->
+  rset_find_d 256 rs line (Z.to_nat n) flg = (Ok (idx, g), c) ->
+  exists m', CLite.callf GenCFuncs.cprog fuel (S (S (S (S (S (S (S (S (S (S (256 + e))))))))))) GenCFuncs.F_rset_find
+               [CLite.VPtr rb 0; CLite.VPtr bl 0; CLite.VInt n; CLite.VPtr gb 0; CLite.VInt flg] m = CLite.Ok (CLite.VInt idx, m') /\
+    nth_error m' gb = Some (if (idx <? 0)%Z then gold else CLiteTac.tab_block g ++ skipn (2 * Z.to_nat n) gold) /\
+    (2 < rs_grpcnt rs -> nth_error m' (length m) = Some []) /\
+    forall b, b < length m -> b <> gb -> nth_error m' b = nth_error m b.
+Proof. exact TrRsetFindRx.tr_rset_find_model. Qed.
+Print Assumptions C10_tr_rset_find_model.
+
+Theorem C10_rset_make_tabs_ok : forall res flg rs, rset_make res flg = Ok (Some rs) ->
+  (Z.of_nat (length res) <= 2147483647)%Z -> (Z.of_nat (rs_grpcnt rs) <= 2147483647)%Z ->
+  TrRsetFind.rset_tabs_ok (Z.of_nat (rs_n rs)) (Z.of_nat (rs_grpcnt rs)) (rs_grp rs) (rs_setgrpcnt rs) /\ 2 <= rs_grpcnt rs.
+Proof. exact TrRsetFind.rset_make_tabs_ok. Qed.
+Print Assumptions C10_rset_make_tabs_ok.
+
+(* C10_tr_rset_make -- rset_make on the C text, RELATIVE to the oracle of regcomp (CLiteExt.callx, X_regcomp; regcomp itself is tied to
+   its model in TrRegexComp*.v).  re[] = a block of n cells, NULL or pointers to NUL-free C strings (TrRsetMake.re_at).  For every set the
+   MODEL's rset_make accepts: at the call of regcomp the memory M holds the wrapper STRING "(" "(p0)" "|" "(p1)" ... ")" = rset_pattern res,
+   NUL-terminated inside its block (built with the translated sbuf.c: TrSbuf.v), the struct with n and grpcnt, grp[] = rs_grp rs (n + 1
+   ints, grp[n] = grpcnt), setgrpcnt[] = rs_setgrpcnt rs (filled through the translated re_groupcount: C10_tr_re_groupcount) -- the tables of
+   C10_rset_index_all --, and the compile flags are REG_EXTENDED | rs_cflg rs.  Whatever the oracle answers (it must leave grp[], setgrpcnt[],
+   the sbuf and cells 1..4 of the struct alone): 0 -> the struct is returned and the sbuf (struct and data block) is freed; non-zero -> NULL,
+   and grp[], setgrpcnt[], the struct, the sbuf are all freed. *)
+Theorem C10_tr_rset_make : forall (ext : nat -> list CLite.val -> CLite.mem -> CLite.res (CLite.val * CLite.mem)) fuel d (m0 : CLite.mem) ba n flg res rs,
+  (0 <= n < 2147483647)%Z -> TrRsetMake.re_at m0 ba res -> Forall (fun p : bytes => length p < fuel) (somes res) -> Z.of_nat (length res) = n ->
+  (TrRsetMake.pats_total res + 4 < 500000000)%Z -> length res < fuel -> rset_make res flg = Ok (Some rs) ->
+  let rsb := length m0 in let psb := S (length m0) in let gb := length m0 + 2 in let sgb := length m0 + 3 in
+  exists M bd rest,
+    nth_error M bd = Some (map CLite.VInt (CLiteProps.zb (rset_pattern res)) ++ CLite.VInt 0 :: rest) /\ length m0 + 4 <= bd /\
+    nth_error M rsb = Some [CLite.VInt 0; CLite.VInt (Z.of_nat (rs_n rs)); CLite.VPtr gb 0; CLite.VPtr sgb 0; CLite.VInt (Z.of_nat (rs_grpcnt rs))] /\
+    nth_error M gb = Some (map CLite.VInt (rs_grp rs)) /\
+    nth_error M sgb = Some (map CLite.VInt (map Z.of_nat (rs_setgrpcnt rs)) ++ [CLite.VUndef]) /\
+    TrRsetMake.cflg_of flg = Z.lor 1 (rs_cflg rs) /\
+    (forall b', b' < length m0 -> nth_error M b' = nth_error m0 b') /\
+    forall r M', ext GenCFuncs.X_regcomp [CLite.VPtr rsb 0; CLite.VPtr bd 0; CLite.VInt (TrRsetMake.cflg_of flg)] M = CLite.Ok (CLite.VInt r, M') ->
+      nth_error M' gb = nth_error M gb -> nth_error M' sgb = nth_error M sgb -> nth_error M' psb = nth_error M psb ->
+      nth_error M' bd = nth_error M bd ->
+      (exists c0, nth_error M' rsb = Some [c0; CLite.VInt n; CLite.VPtr gb 0; CLite.VPtr sgb 0; CLite.VInt (Z.of_nat (rs_grpcnt rs))]) ->
+      exists m', CLiteExt.callx ext GenCFuncs.cprog fuel (S (S (S (S d)))) GenCFuncs.F_rset_make [CLite.VInt n; CLite.VPtr ba 0; CLite.VInt flg] m0
+                 = CLite.Ok ((if (r =? 0)%Z then CLite.VPtr rsb 0 else CLite.VInt 0), m') /\
+        nth_error m' psb = Some [] /\ nth_error m' bd = Some [] /\
+        if (r =? 0)%Z then forall b', b' <> psb -> b' <> bd -> nth_error m' b' = nth_error M' b'
+        else nth_error m' rsb = Some [] /\ nth_error m' gb = Some [] /\ nth_error m' sgb = Some [] /\
+             forall b', b' <> rsb -> b' <> gb -> b' <> sgb -> b' <> psb -> b' <> bd -> nth_error m' b' = nth_error M' b'.
+Proof. exact TrRsetMake.tr_rset_make_model. Qed.
+Print Assumptions C10_tr_rset_make.
+
+(* a set with a pattern that is not self-contained (re_groupcount == -1: the model's rset_make answers Ok None without calling regcomp) is
+   rejected WITHOUT calling regcomp -- the theorem holds for every oracle --, and everything rset_make allocated that is still live is freed:
+   the struct, grp[], setgrpcnt[], the sbuf struct and its data block; the caller's blocks are unchanged *)
+Theorem C10_tr_rset_make_rejects : forall (ext : nat -> list CLite.val -> CLite.mem -> CLite.res (CLite.val * CLite.mem)) fuel d (m0 : CLite.mem) ba n flg,
+  (0 <= n < 2147483647)%Z -> forall res, TrRsetMake.re_at m0 ba res -> Forall (fun p : bytes => length p < fuel) (somes res) ->
+  Z.of_nat (length res) = n -> (TrRsetMake.pats_total res + 4 < 500000000)%Z -> length res < fuel -> TrRsetMake.any_bad res = true ->
+  exists m' bd, CLiteExt.callx ext GenCFuncs.cprog fuel (S (S (S (S d)))) GenCFuncs.F_rset_make [CLite.VInt n; CLite.VPtr ba 0; CLite.VInt flg] m0
+                = CLite.Ok (CLite.VInt 0, m') /\
+    nth_error m' (length m0) = Some [] /\ nth_error m' (length m0 + 2) = Some [] /\ nth_error m' (length m0 + 3) = Some [] /\
+    nth_error m' (S (length m0)) = Some [] /\ length m0 + 4 <= bd /\ nth_error m' bd = Some [] /\
+    forall b', b' < length m0 -> nth_error m' b' = nth_error m0 b'.
+Proof. exact TrRsetMake.tr_rset_make_bad. Qed.
+Print Assumptions C10_tr_rset_make_rejects.
+
+(* non-vacuity: the translated functions RUN (vm_compute of the CLite interpreter).
+   rset_find: the set {a, b} -- the program the model's regcomp emits for ((a)|(b)), grp = {2, 3, 4}, setgrpcnt = {0, 0}, grpcnt = 4 -- laid
+   out behind the global blocks; on "xb\n" the translated rset_find (with the translated regexec under it) returns index 1 and grps =
+   {1, 2, -1, -1}, on "ab\n" index 0 and {0, 1, -1, -1}, on "x\n" -1 with grps[] untouched; subs (the first block allocated) is freed each
+   time; the model agrees.
+   rset_make with a table oracle for regcomp (accepts, checks the wrapper string and the flags it is handed): re[] = {"a(b)", NULL, "c"} gives
+   the string "((a(b))|(c))", grp = {2, -1, 4, 5}, setgrpcnt = {1, 0, 0}, grpcnt = 5, the sbuf freed; {"a)"} is rejected under callf (no
+   oracle at all: regcomp is not reached) with all five blocks freed; without an oracle an acceptable set stops at regcomp: EShape. *)
+Definition C10_set_mem (line : list Z) : CLite.mem :=
+  GenCFuncs.cglobals ++
+  [CLite.cstr_block [97%Z]; CLite.cstr_block [98%Z];
+   C10_ri 0 (CLite.VInt 0) 109 0 0 0 ++ C10_ri 0 (CLite.VInt 0) 109 0 0 2 ++ C10_ri 0 (CLite.VInt 0) 102 3 7 0 ++ C10_ri 0 (CLite.VInt 0) 109 0 0 4 ++
+   C10_ri 0 (CLite.VPtr C10_G 0) 0 0 0 0 ++ C10_ri 0 (CLite.VInt 0) 109 0 0 5 ++ C10_ri 0 (CLite.VInt 0) 106 10 0 0 ++ C10_ri 0 (CLite.VInt 0) 109 0 0 6 ++
+   C10_ri 0 (CLite.VPtr (C10_G + 1) 0) 0 0 0 0 ++ C10_ri 0 (CLite.VInt 0) 109 0 0 7 ++ C10_ri 0 (CLite.VInt 0) 109 0 0 3 ++ C10_ri 0 (CLite.VInt 0) 109 0 0 1 ++
+   C10_ri 0 (CLite.VInt 0) 113 0 0 0;
+   [CLite.VPtr (C10_G + 2) 0; CLite.VInt 13; CLite.VInt 0];
+   [CLite.VPtr (C10_G + 3) 0; CLite.VInt 2; CLite.VPtr (C10_G + 5) 0; CLite.VPtr (C10_G + 6) 0; CLite.VInt 4];
+   [CLite.VInt 2; CLite.VInt 3; CLite.VInt 4]; [CLite.VInt 0; CLite.VInt 0; CLite.VUndef];
+   CLite.cstr_block line; [CLite.VUndef; CLite.VUndef; CLite.VUndef; CLite.VUndef]].
+Definition C10_set_run (line : list Z) : option (CLite.val * option CLite.block * option CLite.block) :=
+  match CLite.callf GenCFuncs.cprog 200 280 GenCFuncs.F_rset_find
+          [CLite.VPtr (C10_G + 4) 0; CLite.VPtr (C10_G + 7) 0; CLite.VInt 2; CLite.VPtr (C10_G + 8) 0; CLite.VInt 0] (C10_set_mem line) with
+  | CLite.Ok (v, m') => Some (v, nth_error m' (C10_G + 8), nth_error m' (C10_G + 9))
+  | CLite.Err _ => None
+  end.
+Definition C10_val_eqb (a b : CLite.val) : bool :=
+  match a, b with
+  | CLite.VInt x, CLite.VInt y => (x =? y)%Z
+  | CLite.VPtr p x, CLite.VPtr q y => andb (Nat.eqb p q) (x =? y)%Z
+  | CLite.VUndef, CLite.VUndef => true
+  | _, _ => false
+  end.
+(* regcomp as a table: succeeds (0, memory untouched) when it is handed this wrapper string and these flags, any other call is an error *)
+Definition C10_ext_regcomp (pat : list Z) (cflg : Z) : nat -> list CLite.val -> CLite.mem -> CLite.res (CLite.val * CLite.mem) :=
+  fun f args m =>
+    if Nat.eqb f GenCFuncs.X_regcomp then
+      match args with
+      | [CLite.VPtr _ _; CLite.VPtr bd 0%Z; CLite.VInt cf] =>
+          match nth_error m bd with
+          | Some blk => if andb (andb (forallb (fun ab => C10_val_eqb (fst ab) (snd ab))
+                                                  (combine (firstn (S (length pat)) blk) (map CLite.VInt pat ++ [CLite.VInt 0])))
+                                         (Nat.leb (S (length pat)) (length blk))) (cf =? cflg)%Z
+                        then CLite.Ok (CLite.VInt 0, m) else CLite.Err CLite.EType
+          | None => CLite.Err CLite.EOob
+          end
+      | _ => CLite.Err CLite.EShape
+      end
+    else CLite.Err CLite.EShape.
+Definition C10_make_mem : CLite.mem :=
+  GenCFuncs.cglobals ++ [CLite.cstr_block [97; 40; 98; 41]%Z; CLite.cstr_block [99%Z]; [CLite.VPtr C10_G 0; CLite.VInt 0; CLite.VPtr (C10_G + 1) 0]].
+Example C10_tr_rset_nonvacuous :
+  C10_set_run [120; 98; 10]%Z = Some (CLite.VInt 1, Some [CLite.VInt 1; CLite.VInt 2; CLite.VInt (-1); CLite.VInt (-1)], Some []) /\
+  C10_set_run [97; 98; 10]%Z = Some (CLite.VInt 0, Some [CLite.VInt 0; CLite.VInt 1; CLite.VInt (-1); CLite.VInt (-1)], Some []) /\
+  C10_set_run [120; 10]%Z = Some (CLite.VInt (-1), Some [CLite.VUndef; CLite.VUndef; CLite.VUndef; CLite.VUndef], Some []) /\
+  (exists r, rset_make [Some [97%N]; Some [98%N]] 0%Z = Ok (Some r) /\ code (rs_prog r) =
+     [IMark 0; IMark 2; IFork 3 7; IMark 4; IAtom (AChr [97%N]); IMark 5; IJump 10; IMark 6; IAtom (AChr [98%N]); IMark 7; IMark 3; IMark 1; IMatch] /\
+     rs_grp r = [2; 3; 4]%Z /\ rs_setgrpcnt r = [0; 0] /\ rs_grpcnt r = 4 /\
+     fst (rset_find_d 256 r [120; 98; 10]%N 2 0%Z) = Ok (1%Z, [(1, 2); (-1, -1)]%Z) /\
+     fst (rset_find_d 256 r [120; 10]%N 2 0%Z) = Ok ((-1)%Z, []) /\
+     TrRsetFind.rset_tabs_ok (Z.of_nat (rs_n r)) (Z.of_nat (rs_grpcnt r)) (rs_grp r) (rs_setgrpcnt r)) /\
+  (match CLiteExt.callx (C10_ext_regcomp [40; 40; 97; 40; 98; 41; 41; 124; 40; 99; 41; 41]%Z 1) GenCFuncs.cprog 100 8 GenCFuncs.F_rset_make
+           [CLite.VInt 3; CLite.VPtr (C10_G + 2) 0; CLite.VInt 0] C10_make_mem with
+   | CLite.Ok (v, m') => Some (v, skipn (length C10_make_mem) m')
+   | CLite.Err _ => None
+   end = Some (CLite.VPtr (C10_G + 3) 0,
+               [[CLite.VInt 0; CLite.VInt 3; CLite.VPtr (C10_G + 5) 0; CLite.VPtr (C10_G + 6) 0; CLite.VInt 5]; [];
+                [CLite.VInt 2; CLite.VInt (-1); CLite.VInt 4; CLite.VInt 5]; [CLite.VInt 1; CLite.VInt 0; CLite.VInt 0; CLite.VUndef]; []])) /\
+  rset_pattern [Some [97; 40; 98; 41]%N; None; Some [99%N]] = [40; 40; 97; 40; 98; 41; 41; 124; 40; 99; 41; 41]%N /\
+  (match CLite.callf GenCFuncs.cprog 100 8 GenCFuncs.F_rset_make [CLite.VInt 1; CLite.VPtr (C10_G + 1) 0; CLite.VInt 0]
+           (GenCFuncs.cglobals ++ [CLite.cstr_block [97; 41]%Z; [CLite.VPtr C10_G 0]]) with
+   | CLite.Ok (v, m') => Some (v, skipn (C10_G + 2) m')
+   | CLite.Err _ => None
+   end = Some (CLite.VInt 0, [[]; []; []; []; []])) /\
+  TrRsetMake.any_bad [Some [97; 41]%N] = true /\
+  CLite.callf GenCFuncs.cprog 100 8 GenCFuncs.F_rset_make [CLite.VInt 3; CLite.VPtr (C10_G + 2) 0; CLite.VInt 0] C10_make_mem = CLite.Err CLite.EShape.
+Proof.
+  split; [vm_compute; reflexivity|]. split; [vm_compute; reflexivity|]. split; [vm_compute; reflexivity|].
+  split.
+  { eexists. split; [vm_compute; reflexivity|]. split; [vm_compute; reflexivity|]. split; [vm_compute; reflexivity|].
+    split; [vm_compute; reflexivity|]. split; [vm_compute; reflexivity|]. split; [vm_compute; reflexivity|]. split; [vm_compute; reflexivity|].
+    apply (TrRsetFind.rset_make_tabs_ok [Some [97%N]; Some [98%N]] 0%Z); [vm_compute; reflexivity|vm_compute; discriminate|vm_compute; discriminate]. }
+  split; [vm_compute; reflexivity|]. split; [vm_compute; reflexivity|]. split; [vm_compute; reflexivity|]. split; vm_compute; reflexivity.
+Qed.
